@@ -51,7 +51,8 @@ PROBES = ["event_queued_while_bytes_buffered", "two_scheduled_due", "equal_when"
           "threshold_none_burst_gt_read_size", "timeout_expired", "unget_ahead_of_stream", "keyboardinterrupt_torn_request",
           "threadsafe_event_woke_blocked_request", "callback_preempted_between_append_and_write", "sentinel_injected",
           "sigwinch_wakeup", "scheduled_woke_request", "pipe_full_block", "multi_kb_burst", "trigger_created_mid_run",
-          "cursor_query", "cursor_query_with_typeahead"]
+          "cursor_query", "cursor_query_with_typeahead", "typed_before_enter", "context_reentered",
+          "app_on_non_main_thread"]
 TRIGGERS = {}
 
 
@@ -105,8 +106,14 @@ def gen_plan(seed, tier, index=0, avoid=()):
         nts = 1
     cfg = {
         "read_size": rng.choice((7, 8, 16, 64, 1024, 1024)),
-        "paste_threshold": rng.choice((None, 1, 2, 8, 8, 8, 20, 1000)),
+        "paste_threshold": rng.choice((None, 0, 1, 2, 7, 8, 8, 8, 20, 1000, 1023, 1024)),
         "keynames": rng.choice(("bytes", "bytes", "bytes", "curtsies", "curses")),
+        "keynames_enum": rng.random() < 0.3,
+        "locale_name": rng.choice(("utf-8", "UTF-8", "utf8")),
+        # the application uses the Input from a thread that is not the main thread (no signal wake-up pipe there)
+        "app_main": not (faulty and rng.random() < 0.12),
+        # typed before the Input context is entered / while it is left and entered again
+        "pre_typed": (b"".join(_burst(rng, mix, rng.randint(1, 5))).hex() if rng.random() < 0.15 and not split else ""),
         "sigint_event": rng.random() < 0.5,
         "sigint_handler": rng.choice(("default", "app")),
         "dts": rng.random() < 0.3,
@@ -150,8 +157,10 @@ def gen_plan(seed, tier, index=0, avoid=()):
                 main.append({"op": "sched", "at": round(rng.uniform(-0.5, 4.0), 6) + rng.random() * 1e-7})
         elif r < 0.90 and nts:
             main.append({"op": "ts_call", "trig": rng.randrange(nts)})
-        elif r < 0.93:
+        elif r < 0.925:
             main.append({"op": "sleep", "dt": rng.choice((0.001, 0.05, 0.5))})
+        elif r < 0.93 and not split:
+            main.append({"op": "reenter"})       # leave the context and enter it again (same object)
         elif r < 0.95 and not split:
             # a CursorAwareWindow sharing the tty asks for the cursor position between two requests; what was
             # typed ahead of the terminal's report is handed back through unget_bytes (bpython's wiring)
@@ -163,6 +172,11 @@ def gen_plan(seed, tier, index=0, avoid=()):
     storm = faulty and rng.random() < 0.15
     if storm:
         nenv += rng.randint(3, 10)
+    if faulty and rng.random() < (0.01 if tier == "thorough" else 0.003):
+        # a window being dragged: a flood of SIGWINCHs during (probably) one blocked request
+        t0_ = round(rng.uniform(0.0, 3.0), 4)
+        for k_ in range(rng.choice((300, 1200, 2500))):
+            env.append({"t": round(t0_ + k_ * 1e-5, 6), "kind": "sigwinch"})
     for _ in range(nenv):
         t = round(rng.uniform(0.0, 6.0), 4)
         k = rng.random()
@@ -275,8 +289,9 @@ def _simp(p):
             del q["cfg"]["short_reads"][k]
             yield q
     for key, simple in (("tick", 0.0), ("time_cost", 0.0), ("overshoot", 0.0), ("pipe_cap", 65536), ("dts", False),
-                        ("read_size", 1024), ("sigint_handler", "default"), ("sigint_event", False), ("keynames", "bytes")):
-        if cfg[key] != simple:
+                        ("read_size", 1024), ("sigint_handler", "default"), ("sigint_event", False), ("keynames", "bytes"),
+                        ("keynames_enum", False), ("app_main", True), ("pre_typed", "")):
+        if cfg.get(key, simple) != simple:
             q = planmod.clone(p)
             q["cfg"][key] = simple
             yield q
@@ -363,8 +378,14 @@ def _key_lengths(data):
 
 
 class Ev:
+    world = None
+
     def __init__(self, src=None, n=None):
         self.src, self.n = src, n
+        w = Ev.world
+        if w is not None and not w.aborting:
+            w.at_line = 0
+            w.yield_point()
 
 
 class Model:
@@ -406,8 +427,8 @@ class Model:
 def run_plan(p, keep_log=False):
     cfg = p["cfg"]
     s = setup.make({"h": 2, "w": 10, "read_size": cfg["read_size"], "pipe_cap": cfg["pipe_cap"], "tick": cfg["tick"],
-                    "time_cost": cfg["time_cost"], "overshoot": cfg["overshoot"], "yield_cap": 600000},
-                   p["sched"], keep_log)
+                    "time_cost": cfg["time_cost"], "overshoot": cfg["overshoot"], "yield_cap": 600000,
+                    "locale_name": cfg.get("locale_name")}, p["sched"], keep_log)
     world = s.world
     res = {"violation": None, "error": None, "probes": world.probes, "faults": world.faults,
            "states": set(), "nsteps": 0}
@@ -419,6 +440,7 @@ def run_plan(p, keep_log=False):
         res["error"] = "SimAbort escaped to the main thread"
     finally:
         sys.settrace(None)
+        Ev.world = None
         try:
             setup.finish(s)
         except HarnessError as e:
@@ -452,6 +474,10 @@ def _execute(p, s, res):
     thr = cfg["paste_threshold"]
     tracer = world.make_tracer(ci.__file__)
     world.thread_tracer = tracer
+    # constructing the event object is a pre-emption point in the middle of the callback's line (bytecode-level
+    # tracing would give more of those, but CPython's 'opcode' events differ between the first and later
+    # executions of a code object in one process, which breaks exact replay)
+    Ev.world = world
 
     class SEv(events.ScheduledEvent):
         def __init__(self, when):
@@ -475,7 +501,12 @@ def _execute(p, s, res):
         if M.tty_read_total not in M.boundaries:
             world.probe("char_cut_by_read")
             world.fault("read_boundary_split")
-    kernel.on_tty_read = on_tty_read
+    def tty_read_observer(fd, data):
+        # a read of the tty outside a request is somebody else's (e.g. a window asking for the cursor position
+        # with os.read): what of it belongs to the Input comes back through unget_bytes and is booked there
+        if in_request[0]:
+            on_tty_read(fd, data)
+    kernel.on_tty_read = tty_read_observer
     if cfg.get("short_reads"):
         kernel.read_faults[s.fd] = {int(k): ("cap", v) for k, v in cfg["short_reads"].items()}
     for k in cfg.get("eio_reads", ()):
@@ -540,7 +571,10 @@ def _execute(p, s, res):
         else:
             world.at(world.t0 + e["t"], "signal", int(_signal.SIGWINCH))
 
-    inp = Input(in_stream=s.inp, keynames=mode, paste_threshold=thr, sigint_event=cfg["sigint_event"],
+    kn = mode
+    if cfg.get("keynames_enum") and hasattr(events, "Keynames"):
+        kn = {"bytes": events.Keynames.BYTES, "curtsies": events.Keynames.CURTSIES, "curses": events.Keynames.CURSES}[mode]
+    inp = Input(in_stream=s.inp, keynames=kn, paste_threshold=thr, sigint_event=cfg["sigint_event"],
                 disable_terminal_start_stop=cfg["dts"])
     ts_cbs = []
     ts_rfds = []          # read ends of the trigger pipes, in creation order (observed at the pipe() seam)
@@ -572,10 +606,10 @@ def _execute(p, s, res):
     def on_quiescent():
         # everything is blocked for good.  If the app sits in a request although something was
         # deliverable to it, that is the liveness violation; otherwise the user presses a key.
-        if not in_request[0] or world.main.state != "blocked":
+        if not in_request[0] or world.watch.state != "blocked":
             return False
-        if len(s.tty.inq) > 0 or M.ts_completed:
-            return False
+        if len(s.tty.inq) > 0 or M.ts_completed or M.sched:
+            return False      # something is (or will become) deliverable: the request has to wake up by itself
         sentinel_count[0] += 1
         if sentinel_count[0] > 50:
             return False
@@ -585,6 +619,19 @@ def _execute(p, s, res):
         kernel.arrive(s.fd, b"Z")
         return True
     world.on_quiescent = on_quiescent
+
+    def on_clock_jump(t_from, t_to):
+        # the application thread sits blocked in a request while the clock moves on: a scheduled event whose
+        # time had clearly passed before this wait began should have ended the wait
+        if not in_request[0] or world.watch.blocked_in != "select":
+            return
+        late = [w for w, n in M.sched if w + 0.005 < t_from and n in req_sched_at_start[0]]
+        if late:
+            _violate(res, "blocked_past_due_scheduled_event", -1,
+                     {"scheduled_for": late[0] - world.t0, "still_blocked_at": t_from - world.t0,
+                      "clock_jumps_to": t_to - world.t0})
+    world.on_clock_jump = on_clock_jump
+    req_sched_at_start = [set()]
 
     def call_ts(k, who):
         n = M.new_serial("ts", (k, who))
@@ -646,6 +693,7 @@ def _execute(p, s, res):
         sched_pending = bool(M.sched)
         M.req_reads = []
         M.req_spans = []
+        req_sched_at_start[0] = set(n for w, n in M.sched)
         pos0 = M.pos
         short0 = world.faults.get("short_read", 0)
         eio0 = world.faults.get("read_eio", 0)
@@ -655,7 +703,7 @@ def _execute(p, s, res):
             bool(M.q_events), bool(M.ts_completed), "due" if "scheduled_due" in deliv else "pend" if M.sched else "-",
             M.pos < len(M.entered), len(s.tty.inq) > 0, min(stale, 2),
             "N" if timeout is None else "0" if timeout == 0 else "s" if timeout < 0.1 else "L",
-            sum(1 for t in world.threads[1:] if t.state != "done")))
+            sum(1 for t in world.threads[1:] if t.state != "done" and t is not world.watch)))
         if M.q_events and (M.pos < len(M.entered)):
             world.probe("event_queued_while_bytes_buffered")
         due = sorted(w for w, n in M.sched if w < world.now)
@@ -849,7 +897,7 @@ def _execute(p, s, res):
 
     def read_obs(fd, n):
         data = orig_read(fd, n)
-        if fd in ts_rfds and world.current is world.main:
+        if fd in ts_rfds and world.current is world.watch:
             req_spur[0] += 1          # a trigger-pipe read by the app thread; judged spurious or not at return
         return data
     kernel.read = read_obs
@@ -857,172 +905,229 @@ def _execute(p, s, res):
     last_select_seq = [0]
 
     def select_obs(r, w, x, timeout=None):
-        if world.current is world.main:
+        if world.current is world.watch:
             last_select_seq[0] = world.log.n
         return orig_select(r, w, x, timeout)
     kernel.select = select_obs
 
-    sys.settrace(tracer)
-    inp.__enter__()
-    try:
-        ev_cb[0] = inp.event_trigger(Ev)
-        sched_cb[0] = inp.scheduled_event_trigger(SEv)
-        def make_ts():
-            fds0 = set(kernel.open_fds())
-            cb = inp.threadsafe_event_trigger(Ev)
-            new = [fd for fd in sorted(set(kernel.open_fds()) - fds0) if kernel.fds[fd].kind == "pr"]
-            ts_rfds.append(new[0] if new else None)     # (None: this implementation did not open a pipe of its own)
-            ts_cbs.append(cb)
-        for k in range(cfg.get("nts_initial", cfg["nts"])):
-            make_ts()
-        for ti, steps in enumerate(p["threads"]):
-            world.spawn("t%d" % ti, thread_script(ti, steps))
-        aborted = False
-        try:
-            for si, st in enumerate(p["main"]):
-                res["nsteps"] += 1
-                op = st["op"]
-                if op == "send":
-                    req_spur[0] = 0
-                    do_send(si, st["timeout"])
-                elif op == "arrive":
-                    data = bytes.fromhex(st["data"])
-                    if len(data) > 1000:
-                        world.probe("multi_kb_burst")
-                    if thr is None and len(data) > cfg["read_size"]:
-                        world.probe("threshold_none_burst_gt_read_size")
-                    world.log.add("arrive", data)
-                    note_arrival(data)
-                    if not len(s.tty.inq):
-                        M.arrival_seq = world.log.n
-                    kernel.arrive(s.fd, data)
-                elif op == "unget":
-                    data = bytes.fromhex(st["data"])
-                    if M.tty_read_total not in M.boundaries:
-                        # the Input's buffer ends in the middle of a keypress whose rest is still unread on the
-                        # stream: bytes "read from the stream by somebody else" cannot be whole new keys here
-                        world.log.add("unget_skipped_mid_key")
-                        continue
-                    if len(s.tty.inq):
-                        world.probe("unget_ahead_of_stream")
-                    world.log.add("unget", data)
-                    inp.unget_bytes(data)
-                    off = len(M.entered)
-                    for n in _key_lengths(data):
-                        off += n
-                        M.entered_bounds.add(off)
-                    M.entered.extend(data)
-                elif op == "event":
-                    call_event("main")
-                elif op == "sched":
-                    when = world.t0 + st["at"]
-                    n = M.new_serial("sched", "main")
-                    if any(w == when for w, _n in M.sched):
-                        world.probe("equal_when")
-                    SEv.next_serial[0] = n
-                    sched_cb[0](when)
-                    M.sched.append((when, n))
-                    world.log.add("sched", when, n)
-                elif op == "mk_ts":
-                    if len(ts_cbs) < cfg["nts"]:
-                        make_ts()
-                        world.probe("trigger_created_mid_run")
-                elif op == "ts_call" and st["trig"] >= len(ts_cbs):
-                    world.log.add("ts_call_skipped_not_created", st["trig"])
-                elif op == "ts_call":
-                    rfd = ts_rfds[st["trig"]]
-                    pipe = kernel.fds[rfd].pipe if rfd in kernel.fds else None
-                    if pipe is None or (pipe.cap >= 65536 and pipe.cap - len(pipe.buf) >= 1024):
-                        call_ts(st["trig"], "main")
-                    else:
-                        # the app thread is the only reader: a blocking write to its own full pipe would be
-                        # a self-deadlock of the workload, not something the property speaks about
-                        world.log.add("ts_call_skipped_pipe_full", st["trig"])
-                elif op == "sleep":
-                    world.block_until(lambda: False, world.now + st["dt"], "sleep")
-                elif op == "cursor_query":
-                    if M.tty_read_total not in M.boundaries:
-                        world.log.add("cursor_query_skipped_mid_key")
-                        continue
-                    if len(s.tty.inq) > 200:
-                        # get_cursor_position re-runs a backtracking regex over everything read so far after
-                        # every character: kilobytes of type-ahead cost minutes of CPU (a performance matter,
-                        # not a property; noted in DESIGN.md 12.6) -- not exercised here
-                        world.log.add("cursor_query_skipped_large_typeahead")
-                        continue
-                    do_cursor_query(si)
-                if res["violation"]:
-                    break
-            while len(ts_cbs) < cfg["nts"]:
-                make_ts()          # (threads may be waiting for a trigger whose creation step was shrunk away)
-            # ---- drain: everything that went in must come out --------------------------------
-            rounds = 0
-            while not res["violation"]:
-                alive = any(t.state != "done" for t in world.threads[1:])
-                pending = (M.q_events or M.ts_completed or M.sched or len(s.tty.inq) or M.pos < len(M.entered)
-                           or world.env or alive)
-                if not pending:
-                    break
-                rounds += 1
-                if rounds > 4000 + 4 * M.arrived_total:
-                    # every single request of the drain was judged; running out of rounds is a budget matter
-                    raise HarnessError("drain did not finish within its budget (queued %d, threadsafe %d, scheduled %d, "
-                                       "tty %d, buffered %d)" % (len(M.q_events), len(M.ts_completed), len(M.sched),
-                                                                 len(s.tty.inq), len(M.entered) - M.pos))
-                req_spur[0] = 0
-                if cfg["split"] and M.pos < len(M.entered) and not len(s.tty.inq) and not world.env and not alive \
-                        and not (M.q_events or M.ts_completed or M.sched):
-                    # only an incomplete tail is left (split arrival): nothing more can be demanded
-                    world.log.add("drain_stops_with_incomplete_tail", len(M.entered) - M.pos)
-                    break
-                pos_before, ret_before = M.pos, len(M.returned_serials)
-                now_deliv = M.q_events or M.ts_completed or len(s.tty.inq) or M.pos < len(M.entered)
-                if not now_deliv and not alive and (world.env or M.sched) and rounds % 4:
-                    # nothing to fetch right now: the app does other work until the next thing is due
-                    nxt = []
-                    if world.env:
-                        nxt.append(world.env[0][0])
-                    if M.sched:
-                        nxt.append(min(w for w, _n in M.sched) + 1e-6)
-                    if min(nxt) > world.now:
-                        world.block_until(lambda: False, min(nxt), "sleep")
-                do_send(-1 - rounds, 0.05 if (alive or world.env or M.sched) else 0, True)
-                if M.pos == pos_before and len(M.returned_serials) == ret_before and not res["violation"]:
-                    # nothing came out: the app does something else for a moment (a clock that stands
-                    # exactly on a scheduled event's time would otherwise never pass it)
-                    world.block_until(lambda: False, world.now + 0.01, "sleep")
-            if not res["violation"]:
-                do_send(-9998, 0)
-                do_send(-9999, 0)
-        except Quiescent:
+    def on_deadlock():
+        # nothing can ever happen again.  It is the liveness violation when the application sits in a request
+        # although something is deliverable to it; a thread stuck elsewhere (e.g. writing to a full pipe that
+        # nobody reads) is a deadlock of the workload, which the property does not speak about
+        if in_request[0] and world.watch.blocked_in in ("select", "read"):
             _violate(res, "request_blocked_forever_while_deliverable", -1,
                      {"tty_bytes": len(s.tty.inq), "threadsafe_events_completed": list(M.ts_completed),
-                      "blocked_in": world.main.blocked_in})
-            aborted = True
-        except StepCap:
-            # the step budget is a property of the harness: hitting it is not a verdict on the library
-            raise HarnessError("step cap exceeded after %d yield points" % world.yields)
-        # ---- end of history ----------------------------------------------------------------
-        if not res["violation"] and not aborted:
-            for t in world.threads[1:]:
-                if isinstance(t.exc, HarnessError):
-                    raise t.exc
-                if t.exc is not None:
-                    _violate(res, "trigger_thread_raised", -1, {"thread": t.name, "exception": repr(t.exc)})
-            missing = [n for n, (k, src) in M.event_serials.items()
-                       if n not in M.returned_serials and (k != "ts" or n in M.ts_started)]
-            if missing:
-                _violate(res, "event_never_returned", -1, {"serials": missing[:10],
-                                                           "kinds": [M.event_serials[n][0] for n in missing[:10]]})
-            if M.pos != len(M.entered) and not cfg["split"]:
-                _violate(res, "bytes_never_returned", -1, {"returned_to": M.pos, "entered": len(M.entered)})
-            if len(s.tty.inq):
-                _violate(res, "bytes_left_unread", -1, {"unread": len(s.tty.inq)})
-    finally:
-        sys.settrace(None)
-        kernel.read = orig_read
-        kernel.select = orig_select
+                      "scheduled_pending": len(M.sched), "blocked_in": world.watch.blocked_in})
+        else:
+            raise HarnessError("the workload dead-locked outside a request (blocked in %r)" % world.watch.blocked_in)
+
+    def app():
+        if cfg.get("pre_typed"):
+            data = bytes.fromhex(cfg["pre_typed"])       # typed before the application entered the context
+            world.log.add("pre_typed", data)
+            note_arrival(data)
+            kernel.arrive(s.fd, data)
+            world.probe("typed_before_enter")
+        if world.current is world.main:
+            sys.settrace(tracer)
+        inp.__enter__()
         try:
-            inp.__exit__(None, None, None)
-        except (Quiescent, StepCap, SimAbort):
-            pass
+            ev_cb[0] = inp.event_trigger(Ev)
+            sched_cb[0] = inp.scheduled_event_trigger(SEv)
+            def make_ts():
+                fds0 = set(kernel.open_fds())
+                cb = inp.threadsafe_event_trigger(Ev)
+                new = [fd for fd in sorted(set(kernel.open_fds()) - fds0) if kernel.fds[fd].kind == "pr"]
+                ts_rfds.append(new[0] if new else None)     # (None: this implementation did not open a pipe of its own)
+                ts_cbs.append(cb)
+            for k in range(cfg.get("nts_initial", cfg["nts"])):
+                make_ts()
+            for ti, steps in enumerate(p["threads"]):
+                world.spawn("t%d" % ti, thread_script(ti, steps))
+            aborted = False
+            try:
+                for si, st in enumerate(p["main"]):
+                    res["nsteps"] += 1
+                    op = st["op"]
+                    if op == "send":
+                        req_spur[0] = 0
+                        do_send(si, st["timeout"])
+                    elif op == "arrive":
+                        data = bytes.fromhex(st["data"])
+                        if len(data) > 1000:
+                            world.probe("multi_kb_burst")
+                        if thr is None and len(data) > cfg["read_size"]:
+                            world.probe("threshold_none_burst_gt_read_size")
+                        world.log.add("arrive", data)
+                        note_arrival(data)
+                        if not len(s.tty.inq):
+                            M.arrival_seq = world.log.n
+                        kernel.arrive(s.fd, data)
+                    elif op == "unget":
+                        data = bytes.fromhex(st["data"])
+                        if M.tty_read_total not in M.boundaries:
+                            # the Input's buffer ends in the middle of a keypress whose rest is still unread on the
+                            # stream: bytes "read from the stream by somebody else" cannot be whole new keys here
+                            world.log.add("unget_skipped_mid_key")
+                            continue
+                        if len(s.tty.inq):
+                            world.probe("unget_ahead_of_stream")
+                        world.log.add("unget", data)
+                        inp.unget_bytes(data)
+                        off = len(M.entered)
+                        for n in _key_lengths(data):
+                            off += n
+                            M.entered_bounds.add(off)
+                        M.entered.extend(data)
+                    elif op == "event":
+                        call_event("main")
+                    elif op == "sched":
+                        when = world.t0 + st["at"]
+                        n = M.new_serial("sched", "main")
+                        if any(w == when for w, _n in M.sched):
+                            world.probe("equal_when")
+                        SEv.next_serial[0] = n
+                        sched_cb[0](when)
+                        M.sched.append((when, n))
+                        world.log.add("sched", when, n)
+                    elif op == "mk_ts":
+                        if len(ts_cbs) < cfg["nts"]:
+                            make_ts()
+                            world.probe("trigger_created_mid_run")
+                    elif op == "ts_call" and st["trig"] >= len(ts_cbs):
+                        world.log.add("ts_call_skipped_not_created", st["trig"])
+                    elif op == "ts_call":
+                        rfd = ts_rfds[st["trig"]]
+                        pipe = kernel.fds[rfd].pipe if rfd in kernel.fds else None
+                        if pipe is None or (pipe.cap >= 65536 and pipe.cap - len(pipe.buf) >= 1024):
+                            call_ts(st["trig"], "main")
+                        else:
+                            # the app thread is the only reader: a blocking write to its own full pipe would be
+                            # a self-deadlock of the workload, not something the property speaks about
+                            world.log.add("ts_call_skipped_pipe_full", st["trig"])
+                    elif op == "sleep":
+                        world.block_until(lambda: False, world.now + st["dt"], "sleep")
+                    elif op == "reenter":
+                        # the application leaves the context and enters it again with the same object
+                        inp.__exit__(None, None, None)
+                        world.log.add("left_context")
+                        world.block_until(lambda: False, world.now + 0.02, "sleep")
+                        inp.__enter__()
+                        world.probe("context_reentered")
+                    elif op == "cursor_query":
+                        if M.tty_read_total not in M.boundaries:
+                            world.log.add("cursor_query_skipped_mid_key")
+                            continue
+                        if len(s.tty.inq) > 200:
+                            # get_cursor_position re-runs a backtracking regex over everything read so far after
+                            # every character: kilobytes of type-ahead cost minutes of CPU (a performance matter,
+                            # not a property; noted in DESIGN.md 12.6) -- not exercised here
+                            world.log.add("cursor_query_skipped_large_typeahead")
+                            continue
+                        do_cursor_query(si)
+                    if res["violation"]:
+                        break
+                while len(ts_cbs) < cfg["nts"]:
+                    make_ts()          # (threads may be waiting for a trigger whose creation step was shrunk away)
+                # ---- drain: everything that went in must come out --------------------------------
+                rounds = 0
+                while not res["violation"]:
+                    alive = any(t.state != "done" for t in world.threads[1:] if t is not world.watch)
+                    pending = (M.q_events or M.ts_completed or M.sched or len(s.tty.inq) or M.pos < len(M.entered)
+                               or world.env or alive)
+                    if not pending:
+                        break
+                    rounds += 1
+                    if rounds > 4000 + 4 * M.arrived_total:
+                        # every single request of the drain was judged; running out of rounds is a budget matter
+                        raise HarnessError("drain did not finish within its budget (queued %d, threadsafe %d, scheduled %d, "
+                                           "tty %d, buffered %d)" % (len(M.q_events), len(M.ts_completed), len(M.sched),
+                                                                     len(s.tty.inq), len(M.entered) - M.pos))
+                    req_spur[0] = 0
+                    if cfg["split"] and M.pos < len(M.entered) and not len(s.tty.inq) and not world.env and not alive \
+                            and not (M.q_events or M.ts_completed or M.sched):
+                        # only an incomplete tail is left (split arrival): nothing more can be demanded
+                        world.log.add("drain_stops_with_incomplete_tail", len(M.entered) - M.pos)
+                        break
+                    pos_before, ret_before = M.pos, len(M.returned_serials)
+                    now_deliv = M.q_events or M.ts_completed or len(s.tty.inq) or M.pos < len(M.entered)
+                    if not now_deliv and not alive and (world.env or M.sched) and rounds % 4:
+                        # nothing to fetch right now: the app does other work until the next thing is due
+                        nxt = []
+                        if world.env:
+                            nxt.append(world.env[0][0])
+                        if M.sched:
+                            nxt.append(min(w for w, _n in M.sched) + 1e-6)
+                        if min(nxt) > world.now:
+                            world.block_until(lambda: False, min(nxt), "sleep")
+                    do_send(-1 - rounds, 0.05 if (alive or world.env or M.sched) else 0, True)
+                    if M.pos == pos_before and len(M.returned_serials) == ret_before and not res["violation"]:
+                        # nothing came out: the app does something else for a moment (a clock that stands
+                        # exactly on a scheduled event's time would otherwise never pass it)
+                        world.block_until(lambda: False, world.now + 0.01, "sleep")
+                if not res["violation"]:
+                    do_send(-9998, 0)
+                    do_send(-9999, 0)
+            except Quiescent:
+                on_deadlock()
+                aborted = True
+            except StepCap:
+                # the step budget is a property of the harness: hitting it is not a verdict on the library
+                raise HarnessError("step cap exceeded after %d yield points" % world.yields)
+            # ---- end of history ----------------------------------------------------------------
+            if not res["violation"] and not aborted:
+                for t in world.threads[1:]:
+                    if t is world.watch:
+                        continue
+                    if isinstance(t.exc, HarnessError):
+                        raise t.exc
+                    if t.exc is not None:
+                        _violate(res, "trigger_thread_raised", -1, {"thread": t.name, "exception": repr(t.exc)})
+                missing = [n for n, (k, src) in M.event_serials.items()
+                           if n not in M.returned_serials and (k != "ts" or n in M.ts_started)]
+                if missing:
+                    _violate(res, "event_never_returned", -1, {"serials": missing[:10],
+                                                               "kinds": [M.event_serials[n][0] for n in missing[:10]]})
+                if M.pos != len(M.entered) and not cfg["split"]:
+                    _violate(res, "bytes_never_returned", -1, {"returned_to": M.pos, "entered": len(M.entered)})
+                if len(s.tty.inq):
+                    _violate(res, "bytes_left_unread", -1, {"unread": len(s.tty.inq)})
+                if M.tty_read_total != M.arrived_total and not res["violation"]:
+                    # (e.g. type-ahead discarded by a TCSAFLUSH when the context was entered)
+                    _violate(res, "bytes_arrived_but_never_read", -1,
+                             {"arrived": M.arrived_total, "read": M.tty_read_total})
+        finally:
+            if world.current is world.main:
+                sys.settrace(None)
+            kernel.read = orig_read
+            kernel.select = orig_select
+            try:
+                inp.__exit__(None, None, None)
+            except (Quiescent, StepCap, SimAbort):
+                pass
+
+    if cfg.get("app_main", True):
+        app()
+    else:
+        # the application lives on a thread that is not the main thread (no signal wake-up pipe there); the
+        # simulated main thread only waits for it
+        world.probe("app_on_non_main_thread")
+        outcome = []
+
+        def run_app():
+            try:
+                app()
+            except (HarnessError, StepCap) as e:
+                outcome.append(e)
+        t = world.spawn("app", run_app)
+        world.watch = t
+        try:
+            world.join_all()
+        except Quiescent:
+            on_deadlock()
+        except StepCap:
+            raise HarnessError("step cap exceeded after %d yield points" % world.yields)
+        if outcome:
+            raise outcome[0] if isinstance(outcome[0], HarnessError) else HarnessError("step cap exceeded")
+        if t.exc is not None and not res["violation"]:
+            raise HarnessError("application thread ended with %r" % (t.exc,))
